@@ -81,6 +81,14 @@ Catalogue == {
   Case("block-type-3", << F(1, 1), F(3, 2), F(0, 5) >>, "reject", "block-type"),
   Case("stored-nlen", HeaderFields(1, 0) \o << F(0, 5), F(2, 16), F(65532, 16), F(7, 8), F(8, 8) >>, "reject", "len-nlen"),
   Case("hlit-287", HeaderFields(1, 2) \o << F(30, 5), F(1, 5), F(15, 4) >> \o [k \in 1..19 |-> F(DCl[ClOrder[k]], 3)], "reject", "too-many-symbols"),
+  \* 32 distance codes, two of them (30, 31) with a code although no distance uses them, and a reference whose
+  \* code is longer than theirs: zlib refuses the header; a reader that takes it must write it back as it was
+  Case("hdist-32-with-codes-30-31",
+       DynBlockWith(1, 1, 31, 19, [DCl EXCEPT ![2] = 3, ![3] = 3],
+                    << <<18, 54>>, <<1, 0>>, <<18, 127>>, <<18, 41>>, <<2, 0>>, <<2, 0>>, <<1, 0>>, <<3, 0>>, <<18, 17>>, <<2, 0>>, <<3, 0>> >>,
+                    << Lit(65), Ref(3, 1, FALSE), Ref(3, 2, FALSE), Ref(3, 2, FALSE) >>, DLit,
+                    [s \in 0..31 |-> IF s = 0 THEN 1 ELSE IF s = 1 THEN 3 ELSE IF s = 30 THEN 2 ELSE IF s = 31 THEN 3 ELSE 0]),
+       "reject", "too-many-symbols"),
   Case("hdist-31", HeaderFields(1, 2) \o << F(1, 5), F(30, 5), F(15, 4) >> \o [k \in 1..19 |-> F(DCl[ClOrder[k]], 3)], "reject", "too-many-symbols"),
   Case("cl-incomplete", DynBlockWith(1, 1, 1, 19, [DCl EXCEPT ![2] = 3], DItems, DToks, DLit, DDist), "reject", "cl-incomplete"),
   Case("cl-oversubscribed", DynBlockWith(1, 1, 1, 19, [DCl EXCEPT ![2] = 1], DItems, DToks, DLit, DDist), "reject", "cl-incomplete"),
@@ -121,7 +129,13 @@ InputBits(c) == Padded(FieldBits(c.fields, 1))
 InitWith(c, b) == /\ case = c /\ nbytes = Len(b) \div 8
                   /\ cut \in 0..(Len(b) \div 8)
                   /\ ParseInit(SubSeq(b, 1, 8 * cut))
-Init == \E c \in Catalogue : InitWith(c, InputBits(c))
+\* a stored block behind a fixed block, its header ending at every bit position of a byte (n literals of
+\* nine bits each move it by one bit), with and without padding bits set
+StoredAt == { Case("stored-after-fixed-" \o ToString(n) \o (IF pv = 0 THEN "" ELSE "-pad"),
+                   FixedBlock(0, [i \in 1..n |-> Lit(200)]) \o StoredBlock(1, 10 + 9 * n, pv, <<7, 8, 9>>), "accept", "")
+              : n \in 0..7, pv \in {0, 1} }
+AllCases == Catalogue \cup StoredAt
+Init == \E c \in AllCases : InitWith(c, InputBits(c))
 
 Next == ParseNext /\ UNCHANGED <<case, cut, nbytes>>
 Spec == Init /\ [][Next]_vars /\ WF_vars(Next)
